@@ -484,7 +484,16 @@ def dendro_case(desc):
         toks.append(colors_tok)
     f = svg_dendrogram if desc.get('alias') else visualize_dendrogram
     ans, doc, content = call_impl(f, kwargs, desc.get('file', False))
-    return _mk_case('dendrogram', 'visualize_dendrogram', desc, toks, ans, doc, content)
+    cases = _mk_case('dendrogram', 'visualize_dendrogram', desc, toks, ans, doc, content)
+    # the leaf order (it only moves the drawing: compared exactly on its own)
+    from sknetwork.visualization.dendrograms import get_index
+    try:
+        idx = 'ok ' + (','.join(str(int(x)) for x in get_index(d, o.get('reorder', False))) or '-')
+    except (KeyError, IndexError, ValueError) as e:
+        idx = 'err ' + type(e).__name__
+    run = 'c20.index %s reorder=%d' % (toks[0], int(o.get('reorder', False)))
+    cases.append(Case(('index', toks[0], o.get('reorder', False)), {'entry': 'get_index'}, run, idx, None, len(d) > 1, desc))
+    return cases
 
 
 def _mk_case(cmd, entry, desc, toks, ans, doc, content, spec=True):
